@@ -280,6 +280,40 @@ func cmdCheck() int {
 		repByFn[k] = rep
 		obls = append(obls, expandSplits(vc, fs)...)
 	}
+	// lock sweep: every function that touches a mutex or a guarded field
+	if hasProp(e.spec.LockProps, prop) {
+		done := map[string]bool{}
+		for _, vc := range vcs {
+			done[vc.key] = true
+		}
+		for _, fn := range e.lockFunctions() {
+			k := fnKey(fn)
+			if done[k] || (*flagFn != "" && *flagFn != k) {
+				continue
+			}
+			vc := newFuncVC(e, fn)
+			vc.outDir = outDir
+			if vc.spec == nil {
+				vc.spec = &FuncSpec{Name: shortName(k), Pkg: fn.Pkg.Pkg.Name(), Loops: map[int]*LoopSpec{}, Props: []string{prop}}
+			}
+			vc.lockOnly = true
+			vc.generate()
+			vc.finish()
+			vcs = append(vcs, vc)
+			for _, er := range vc.errs {
+				genErrs = append(genErrs, k+": "+er)
+			}
+			rep := &fnReport{Name: k + " (lock discipline)", Pos: fnPosition(e, fn), SSAInstrs: vc.ssaInstrs, Unknown: sortedKeys(vc.unknownCalls), Unsupported: sortedKeys(vc.unsupported)}
+			reports = append(reports, rep)
+			repByFn[k] = rep
+			for _, o := range vc.obls {
+				if o.Kind == "lock" || o.Kind == "guard" {
+					o.Props = []string{prop}
+					obls = append(obls, o)
+				}
+			}
+		}
+	}
 	// lemmas
 	for _, l := range e.spec.Lemmas {
 		if !hasProp(l.Props, prop) {
@@ -447,6 +481,16 @@ func cmdCheck() int {
 		}
 		report(name, "obligation not discharged: "+r.Status, r)
 	}
+	// init-only globals: a syntactic frame condition over go/ssa
+	var initOnlyNote string
+	if hasProp(e.spec.LockProps, prop) && len(e.spec.InitOnly) > 0 && *flagFn == "" && *flagOnly == "" {
+		n, bad := e.initOnlyScan(e.spec.InitOnly)
+		initOnlyNote = fmt.Sprintf("init-only globals %v: %d functions scanned over go/ssa (no solver), %d writes outside init", e.spec.InitOnly, n, len(bad))
+		fmt.Println("  ssa-scan ", initOnlyNote)
+		for i, b := range bad {
+			report(fmt.Sprintf("init-only#%d: %s", i+1, b), "a package-level table that concurrent readers rely on is written outside package initialisation: "+b, nil)
+		}
+	}
 	// bounded stand-ins on the real code (labelled bounded, never counted as proved)
 	var bounded []boundedResult
 	if *flagFn == "" && *flagOnly == "" && !*flagNoBound {
@@ -486,7 +530,7 @@ func cmdCheck() int {
 	fmt.Printf("property %s tier %s: %d obligations, %d discharged, %d violations, %d known findings (%d obligations set aside), %.1fs\n", prop, tier, nObl, nDis, violations, len(knownLines), nKnownObl, wall)
 
 	if !*flagNoEvid && *flagFn == "" && *flagOnly == "" {
-		writeEvidence(e, prop, tier, seed, reports, oreps, nObl, nDis, violations, knownLines, backends, solverMs, wall, vcs, bounded)
+		writeEvidence(e, prop, tier, seed, reports, oreps, nObl, nDis, violations, knownLines, backends, solverMs, wall, vcs, bounded, initOnlyNote)
 	}
 	if violations > 0 {
 		return 1
@@ -555,7 +599,7 @@ func writeLoadFailure(prop, tier string, seed int, replayDir string, err error, 
 }
 
 func writeEvidence(e *Engine, prop, tier string, seed int, reports []*fnReport, oreps []oblReport, nObl, nDis, violations int, known []string,
-	backends map[string]int, solverMs int64, wall float64, vcs []*FuncVC, bounded []boundedResult) {
+	backends map[string]int, solverMs int64, wall float64, vcs []*FuncVC, bounded []boundedResult, extraNote string) {
 	assumedSet := map[string]bool{}
 	for _, vc := range vcs {
 		for k := range vc.assumed {
@@ -603,6 +647,7 @@ func writeEvidence(e *Engine, prop, tier string, seed int, reports []*fnReport, 
 			"known_findings":           known,
 			"contract_files":           e.specFiles,
 			"bounded_standins":         bounded,
+			"ssa_scans":                extraNote,
 			"notes":                    e.notes,
 		},
 		"assumptions": assumptions,
@@ -673,3 +718,5 @@ func cmdReplay() int {
 	fmt.Println("recorded verdict:", m.Input.Verdict)
 	return 1
 }
+
+func sortStrings(s []string) { sort.Strings(s) }
